@@ -15,6 +15,7 @@ import (
 	"google.golang.org/grpc/metadata"
 	"google.golang.org/grpc/stats"
 	"google.golang.org/grpc/status"
+	"google.golang.org/protobuf/types/known/wrapperspb"
 
 	"goatverif/bed"
 	"goatverif/core"
@@ -191,7 +192,7 @@ func c04Run(tier string, seed int64, idx int) *core.Result {
 	var samples []any
 	for i := 0; i < n && len(res.Violations) < 5; i++ {
 		tag := fmt.Sprintf("md%d-%d", idx, i)
-		rp := c04RPC{Kind: []string{"unary", "client", "server", "bidi"}[i%4], HeaderWay: []string{"set-only", "send-header", "with-first-message", "with-trailer"}[r.Intn(4)], Fail: r.Intn(4) == 0, ViaIcpt: r.Intn(2) == 0}
+		rp := c04RPC{Kind: []string{"unary", "client", "server", "bidi"}[i%4], HeaderWay: []string{"set-only", "send-header", "with-first-message", "with-trailer", "with-trailer-after-failed-send"}[r.Intn(5)], Fail: r.Intn(4) == 0, ViaIcpt: r.Intn(2) == 0}
 		used := map[string]bool{}
 		reqCtxMD := c04GenMD(r, 16, used)
 		var reqIcptMD metadata.MD
@@ -284,6 +285,13 @@ func c04Run(tier string, seed int64, idx int) *core.Result {
 				case "set-only":
 					grpc.SetHeader(ss.Context(), h2) // through the ServerTransportStream in the context
 					ss.SendMsg(&svc.BV{Value: []byte("m")})
+				case "with-trailer-after-failed-send":
+					// the first SendMsg fails before anything is written (unmarshalable message):
+					// the headers must still leave, with the final status
+					ss.SetHeader(h2)
+					if err := ss.SendMsg(&wrapperspb.StringValue{Value: "\xff\xfe invalid utf-8"}); err == nil {
+						res.Violate("unmarshalable-message-sent", "SendMsg of a message with invalid UTF-8 succeeded")
+					}
 				default: // with-trailer: no message at all
 					ss.SetHeader(h2)
 				}
@@ -426,7 +434,7 @@ func init() {
 	core.Register(&core.Prop{
 		ID:    "C04",
 		Level: "exploration",
-		Rule:  "each case = 20 RPCs (4 kinds cycling) on one connection; per RPC seeded metadata sets: request 0..16 keys via the outgoing context plus 0..4 (and appends to existing keys) via a client interceptor, response headers in two SetHeader/SendHeader calls (repeated keys append), trailers in two SetTrailer calls, keys over [0-9a-z_.-] in random letter case (no two keys equal up to case), 1..4 values, printable ASCII for text keys, arbitrary bytes (NUL, 0xFF, empty) under -bin; header way in {set only, SendHeader, with first message, with the trailer}; 1 in 4 handlers fail. Compared key by key (lower-cased keys, per-key order, byte-exact) at the handler, via Header()/Trailer(), via the client stats InHeader for unary headers and on the wire for unary trailers. distinct_nontrivial = RPCs (all distinct by seed) having a multi-valued key or a -bin value with NUL/non-ASCII bytes.",
+		Rule:  "each case = 20 RPCs (4 kinds cycling) on one connection; per RPC seeded metadata sets: request 0..16 keys via the outgoing context plus 0..4 (and appends to existing keys) via a client interceptor, response headers in two SetHeader/SendHeader calls (repeated keys append), trailers in two SetTrailer calls, keys over [0-9a-z_.-] in random letter case (no two keys equal up to case), 1..4 values, printable ASCII for text keys, arbitrary bytes (NUL, 0xFF, empty) under -bin; header way in {set only, SendHeader, with first message, with the trailer, with the trailer after a first SendMsg that fails to marshal}; 1 in 4 handlers fail. Compared key by key (lower-cased keys, per-key order, byte-exact) at the handler, via Header()/Trailer(), via the client stats InHeader for unary headers and on the wire for unary trailers. distinct_nontrivial = RPCs (all distinct by seed) having a multi-valued key or a -bin value with NUL/non-ASCII bytes.",
 		Plan:  func(tier string, seed int64) int { return tierN(tier, 30, 2000) },
 		Run:   c04Run,
 		RequiredStats: func(string) []string { return []string{"rpcs", "metadata_keys_checked"} },
